@@ -34,6 +34,8 @@ pub enum Term {
     Ext,
     /// The `\input` comes out of a parameterless macro (`\def\xIa{\input fa }`, call `\xIa `).
     Macro,
+    /// `\relax` directly followed by the next piece, no blank in between.
+    RelaxTight,
 }
 
 #[derive(Clone, Debug, Serialize, Deserialize, PartialEq, Eq)]
@@ -88,6 +90,7 @@ fn render_piece(p: &Piece) -> String {
                 Term::Macro => format!("\\xI{} ", (b'a' + (*file % FILE_NAMES.len()) as u8) as char),
                 Term::Space => format!("\\input {name} "),
                 Term::Relax => format!("\\input {name}\\relax "),
+                Term::RelaxTight => format!("\\input {name}\\relax"),
                 Term::Eol => format!("\\input {name}"),
                 Term::Ext => {
                     if name.ends_with(".tex") {
@@ -141,14 +144,31 @@ fn flatten_line(
     sem: Sem,
     in_file: bool,
     depth: usize,
+    at_maybe_comment: &mut bool,
 ) -> (Vec<String>, bool) {
     let mut out: Vec<String> = vec![];
     let mut cur = String::new();
     let mut resumed = false;
     let mut ended = false;
+    // Once `@` may be a comment character (some file made it one; over-approximated as sticky),
+    // an `@` in a line may swallow the rest of that line: nothing after it is inlined. Not
+    // inlining is always safe - the relation only ever claims equivalence for what it inlines.
+    let mut swallowed = false;
     for (pi, p) in line.iter().enumerate() {
+        if swallowed {
+            cur.push_str(&render_piece(p));
+            continue;
+        }
         match p {
-            Piece::Text(s) => cur.push_str(s),
+            Piece::Text(s) => {
+                cur.push_str(s);
+                if s.contains("catcode64=14") {
+                    *at_maybe_comment = true;
+                }
+                if s.contains('@') && *at_maybe_comment {
+                    swallowed = true;
+                }
+            }
             Piece::Input { file, term } => {
                 let f = &files[*file];
                 if f.missing || f.fault.is_some() || depth >= 6 {
@@ -161,7 +181,7 @@ fn flatten_line(
                 out.push(format!("{cur}%"));
                 let mut stop = false;
                 for fl in effective_lines(f) {
-                    let (ls, e) = flatten_line(fl, files, sem, true, depth + 1);
+                    let (ls, e) = flatten_line(fl, files, sem, true, depth + 1, at_maybe_comment);
                     out.extend(ls);
                     if e {
                         stop = true;
@@ -171,6 +191,7 @@ fn flatten_line(
                 let _ = stop;
                 cur = match term {
                     Term::Relax => "\\relax ".to_string(),
+                    Term::RelaxTight => "\\relax".to_string(),
                     _ => String::new(),
                 };
                 resumed = true;
@@ -202,10 +223,11 @@ fn flatten_line(
 }
 
 fn flatten_main(case: &InlineCase, sem: Sem) -> Vec<String> {
+    let mut at_maybe_comment = false;
     case.main
         .iter()
         .map(|l| {
-            let (ls, _) = flatten_line(l, &case.files, sem, false, 0);
+            let (ls, _) = flatten_line(l, &case.files, sem, false, 0, &mut at_maybe_comment);
             if ls.len() <= 1 {
                 // nothing was inlined (or everything vanished): keep the single-line form
                 ls.concat()
@@ -280,6 +302,13 @@ fn gen_inline(rng: &mut Rng) -> InlineCase {
     let texts = [
         "A", "B ", " C", "D E", "{", "}", "F", "", "  ", "G%", "H\\relax ", "I\\iftrue ", "\\fi J",
         "\\count1=5 ", "K\\the\\count1 ", "L  ",
+        // category-code changes made inside files must affect the rest of the caller's line
+        // exactly as if the lines stood in place ('@' is never needed by the flatten rule itself)
+        // (not 11: a control word directly followed by `@` has been tokenised before the file is
+        // read, so making `@` a letter inside the file legitimately differs from lines in place)
+        "\\global\\catcode64=12 ", "\\global\\catcode64=14 ", "\\global\\catcode64=12 ",
+        "\\global\\catcode64=13 \\gdef@{<A>}",
+        "@a", "b@", "@", "\\relax@c", "\\x@y ",
     ];
     let gen_lines = |rng: &mut Rng, max_file: usize, allow_end: bool, nlines: usize| {
         let mut lines = vec![];
@@ -293,7 +322,7 @@ fn gen_inline(rng: &mut Rng) -> InlineCase {
                     let term = if last && rng.chance(1, 3) {
                         Term::Eol
                     } else {
-                        [Term::Space, Term::Space, Term::Relax, Term::Ext, Term::Macro][rng.below(5)].clone()
+                        [Term::Space, Term::Space, Term::Relax, Term::Ext, Term::Macro, Term::RelaxTight][rng.below(6)].clone()
                     };
                     l.push(Piece::Input {
                         file: rng.below(max_file),
@@ -311,6 +340,12 @@ fn gen_inline(rng: &mut Rng) -> InlineCase {
             }
             // A comment character swallows the rest of the line: nothing may follow it.
             if let Some(pos) = l.iter().position(|p| matches!(p, Piece::Text(t) if t.contains('%'))) {
+                l.truncate(pos + 1);
+            }
+            // `@` may have been made a comment character by some file: same rule. (What follows a
+            // possibly-swallowing `@` cannot be inlined soundly: an \endinput there may or may
+            // not take effect.)
+            if let Some(pos) = l.iter().position(|p| matches!(p, Piece::Text(t) if t.contains('@'))) {
                 l.truncate(pos + 1);
             }
             // An `\input` terminated by end-of-line must be the last piece.
@@ -1143,14 +1178,17 @@ fn eval_limit(case: &LimitCase, ev: &mut Evaluation) {
         (r, None) => ev.violation = fail(format!("self-including file ended with {}", r.short())),
         (LineResult::Ok, Some(n)) => {
             ev.bump("reach.input_chain_succeeded");
-            if n > 102 {
+            if n > 100 {
                 ev.violation = fail(format!("a chain of {n} nested files succeeded; documented limit is 100"));
             } else if depth != n as i64 || !first.out.contains("END") {
                 ev.violation = fail(format!("chain of {n}: depth counter {depth}, out {:?}", first.out));
             }
         }
         (LineResult::Err(e), Some(n)) => {
-            if n <= 90 {
+            // The documented limit is 100 input levels; the main input is one of them, so 99
+            // nested files must work. (Whether exactly 100 files work is left open: it depends on
+            // whether the main input counts, which the statement does not fix.)
+            if n <= 99 {
                 ev.violation = fail(format!("a chain of {n} nested files failed with `{}` at depth {depth}", e.title));
             } else if n >= 103 && !(98..=102).contains(&depth) {
                 ev.violation = fail(format!("chain of {n} failed with `{}` at depth {depth}", e.title));
@@ -1189,12 +1227,15 @@ impl Property for C19 {
         let mut rng = Rng::split(run_seed, 1);
         match run_index % 16 {
             15 => Case::Limit(LimitCase {
-                chain: if rng.chance(1, 3) {
+                chain: if rng.chance(1, 4) {
                     None
+                } else if rng.chance(1, 2) {
+                    // around the boundary: 100 levels = the main input + 99 files
+                    Some(95 + rng.below(12))
                 } else if rng.chance(3, 4) {
-                    Some(1 + rng.below(90))
+                    Some(1 + rng.below(99))
                 } else {
-                    Some(103 + rng.below(20))
+                    Some(101 + rng.below(20))
                 },
                 hash_seed: rng.next_u64(),
             }),
